@@ -116,4 +116,16 @@ CHECKS = {
           "the oracle judges separable masks only. Func masks, DictTransformer and ScoreTransformer are not modelled. Observation: a filter "
           "transformer that drops every chord raises AttributeError in apply_on_score (None.add_tags).",
  },
+ "C07": {
+  "text": "Theorems on the message lists handed to mido: per track, merging continuations and dropping silences yields exactly C03's sounding "
+          "notes, independently of the other tracks; each sounding row gives exactly one note-on (key 60+pitch, velocity, at the onset) and "
+          "one note-off (at onset+duration), ordered by time with offs before ons at equal times; the running sum of the truncated per-event "
+          "deltas is the exact tick position whenever onsets and ends are whole ticks; two parts share a track exactly when their instruments "
+          "have the same program (drums together). The whole export (incl. channels, program changes, tempo and signature metas) is modelled "
+          "and compared with the FILE read back by an independent SMF reader and by mido; the oracle checks the statement on the file. The "
+          "pandas-3 defect that made every export raise was repaired.",
+  "note": "Trusted: Coq kernel; gen_tables (INSTRUMENTS_DICT); mido's writer; pandas' stable multi-key sort; adapters. General MIDI numbering "
+          "is checked by the oracle for the instruments it uses, not for all 128 names. Channel-allocation facts are examples + correspondence, "
+          "not a theorem; more than 15 programs (channel overflow) is not explored.",
+ },
 }
